@@ -19,6 +19,7 @@ type frameSpec struct {
 	OpID     string `json:"opid"`
 	Cid      string `json:"cid"`
 	Truncate int    `json:"truncate,omitempty"`
+	PayloadLimit int `json:"payload_limit,omitempty"`
 }
 
 type replyDesc struct {
@@ -60,6 +61,9 @@ func c14Kinds() []reqKind {
 			return frameSpec{Method: "echo", MType: 1, Args: args(map[string]*idl.W{"1": {T: idl.TString, S: "c3Ry"}}), OpID: op, Cid: "c" + op}
 		}, outcome: &outcomeSpec{Kind: "return", Value: iv(9)}, expect: "reply-or-7", poisons: true},
 		{name: "truncated-args", frame: func(op string) frameSpec { f := echo(op); f.Truncate = 3; return f }, expect: "exception:7", poisons: true},
+		// the caller allows a reply of at most 5 bytes: the HTTP handler refuses with 413 and no frame,
+		// the connection-oriented server knows no such limit and replies
+		{name: "reply-refused-for-size", frame: func(op string) frameSpec { f := echo(op); f.PayloadLimit = 5; return f }, outcome: &outcomeSpec{Kind: "return", Value: iv(9)}, expect: "refused-on-http"},
 		{name: "oneway-ok", frame: func(op string) frameSpec { return frameSpec{Method: "fire", MType: 4, Args: args(map[string]*idl.W{"1": i32W(1)}), OpID: op, Cid: "c" + op} }, outcome: &outcomeSpec{Kind: "return"}, expect: "none"},
 	}
 }
@@ -208,6 +212,12 @@ func runC14(res *result) {
 			var rp *replyDesc
 			if e.server == "http" {
 				rp = cr.Replies[qi]
+				if k.expect == "refused-on-http" {
+					if rp.ParseErr != "no frame: HTTP413" {
+						fail("oversize-reply-not-refused", fmt.Sprintf("request %d allows 5 bytes of reply and got %q %v", qi, rp.ParseErr, rp.Name))
+					}
+					continue
+				}
 				if k.expect == "none" {
 					if rp.ParseErr == "" {
 						fail("oneway-reply", fmt.Sprintf("request %d (%s) is oneway but got a reply frame", qi, k.name))
@@ -237,7 +247,7 @@ func runC14(res *result) {
 			}
 			okType := false
 			switch {
-			case k.expect == "reply":
+			case k.expect == "reply" || k.expect == "refused-on-http":
 				okType = rp.MType == 2
 				if okType && k.excField {
 					if _, has := rp.Tree.F["1"]; !has {
